@@ -164,7 +164,8 @@ func finishCheck(prop, tier string, seed int64, spec PropSpec, results []jobResu
 				}
 				rf.Output = trimOut(out)
 				writeJSON(path, rf)
-				if (j.Clock == "sym" || j.NoNative) && confirmConcrete(eng, jr.Cfg, v, l) {
+				engineOnly := j.Clock == "sym" || j.NoNative || strings.HasSuffix(l, "/alloc-proportional-to-input") || strings.HasSuffix(l, "/unbounded-work")
+				if engineOnly && confirmConcrete(eng, jr.Cfg, v, l) {
 					// clock readings cannot be forced on the native build: the model is re-run in the
 					// engine's concrete mode (same SSA, every input and clock reading fixed)
 					rf.Confirm = "engine-concrete (stubbed clock/syscall values cannot be forced on the native build)"
